@@ -17,6 +17,7 @@ package authenticode
 //@   ensures @cms_signature_and_message_digest_verified ret1 == nil ==> cmsOK && tsOK
 //@   ensures @indirect_data_is_the_signed_content ret1 == nil ==> indirectFromSignedContent && ret0.Indirect == indirect
 //@   ensures @signature_present_on_success ret1 == nil ==> ret0 != nil && ret0.Indirect != nil
+//@   ensures @hashes_are_ones_relic_links ret1 == nil ==> 1 <= ret0.ImageHashFunc && ret0.ImageHashFunc <= 19 && (len(ret0.PageHashes) > 0 ==> ret0.PageHashFunc == 3 || ret0.PageHashFunc == 5)
 //@
 //@ func checkSignatures
 //@   property C02 C11
@@ -33,8 +34,10 @@ package authenticode
 //@   on call builtin append(sl, e): sigHashes = setadd(sigHashes, e[0].ImageHashFunc)
 //@   loop 0 sig "for len(blob) != 0" invariant curDigest == nil && forall(h, in(sigHashes, h) ==> inmap(allhashes, h) && inmap(values, h))
 //@   loop 0 invariant allocated(sigs)
+//@   loop 0 invariant @only_linked_hashes_are_collected forall(h, inmap(allhashes, h) ==> 1 <= h && h <= 19)
 //@   loop 1 sig "for hash := range allhashes" invariant forall(h, visited(h) && values[h] != nil ==> in(checked, h))
 //@   loop 1 invariant forall(h, visited(h) && phvalues[h] != nil ==> in(pagesChecked, h))
+//@   loop 1 invariant @only_linked_hashes_are_collected forall(h, inmap(allhashes, h) ==> 1 <= h && h <= 19)
 //@   ensures @image_digest_recomputed_and_compared_for_every_hash_in_use ret1 == nil && image != nil ==> \
 //@        forall(h, inmap(allhashes, h) && values[h] != nil ==> in(checked, h))
 //@   ensures @page_hashes_recomputed_and_compared ret1 == nil && image != nil ==> \
@@ -80,16 +83,50 @@ package authenticode
 //@   ensures @cms_signature_verified ret1 == nil ==> cmsOK
 //@   ensures @content_digest_recomputed_and_compared ret1 == nil && !skipDigests ==> digestOK
 //@
+//@ macro imageHasherOK(h *imageHasher) bool = h.imageDigest != nil && 1 <= h.hashFunc && h.hashFunc <= 19 && \
+//@        (h.doPageHash ==> len(h.pageBuf) >= 1 && len(h.zeroPage) == len(h.pageBuf) && len(h.pageBuf) <= 8192)
+//@
 //@ func (*imageHasher).section
-//@   property C09
-//@   requires len(h.pageBuf) >= 1 && sh.PointerToRawData + sh.SizeOfRawData <= 4294967295
+//@   property C09 C11
+//@   nopanic
+//@   requires r != nil && imageHasherOK(h)
+//@   ensures imageHasherOK(h)
 //@   before call invoke io.Reader.Read(_, _): assert @pages_never_follow_read_boundaries false
 //@   before call io.ReadFull(src, b): assert @whole_pages_are_read src == r && len(b) == min(remaining, len(h.pageBuf)) && samearr(b, h.pageBuf)
 //@   before call (*imageHasher).addPageHash(_, off, b, rm): assert @page_offset_is_file_offset_of_the_page \
-//@        off == sh.PointerToRawData + (sh.SizeOfRawData - remaining) && rm == 0
-//@   loop 0 sig "for remaining > 0" invariant 0 <= remaining && remaining <= sh.SizeOfRawData && position == sh.PointerToRawData + (sh.SizeOfRawData - remaining) && \
-//@        (remaining > 0 ==> (sh.SizeOfRawData - remaining) % len(h.pageBuf) == 0) && len(h.pageBuf) >= 1
-
+//@        sh.PointerToRawData + sh.SizeOfRawData <= 4294967295 ==> off == sh.PointerToRawData + (sh.SizeOfRawData - remaining) && rm == 0
+//@   loop 0 sig "for remaining > 0" invariant 0 <= remaining && remaining <= sh.SizeOfRawData && \
+//@        (sh.PointerToRawData + sh.SizeOfRawData <= 4294967295 ==> position == sh.PointerToRawData + (sh.SizeOfRawData - remaining)) && \
+//@        (remaining > 0 ==> (sh.SizeOfRawData - remaining) % len(h.pageBuf) == 0) && imageHasherOK(h) && \
+//@        (samearr(h.pageHashes, old(h.pageHashes)) || allocated(h.pageHashes))
+//@   modifies h.lastPage, h.pageHashes, mem(h.pageHashes), mem(h.pageBuf), sink r
+//@
+//@ func (*imageHasher).addPageHash
+//@   property C11
+//@   nopanic
+//@   requires 1 <= h.hashFunc && h.hashFunc <= 19 && removed >= 0 && len(blob) + removed <= len(h.zeroPage)
+//@   ensures @table_grows_in_place_or_into_new_memory samearr(h.pageHashes, old(h.pageHashes)) || allocated(h.pageHashes)
+//@   allocbound 0 64
+//@   modifies h.pageHashes, mem(h.pageHashes)
+//@
+//@ func (*imageHasher).finish
+//@   property C11
+//@   nopanic
+//@   requires imageHasherOK(h)
+//@   modifies h.pageHashes, mem(h.pageHashes)
+//@
+//@ func setupDigester
+//@   property C11
+//@   nopanic
+//@   requires hvals != nil && (hvals.pageSize == 4096 || hvals.pageSize == 8192) && 1 <= hash && hash <= 19 && 0 <= hvals.sizeOfHdr && hvals.sizeOfHdr <= 4294967295 && len(sections) <= 65535
+//@   ensures ret1 == nil ==> ret0 != nil && imageHasherOK(ret0) && ret0.doPageHash == doPageHash && ret0.hashFunc == hash
+//@   allocbound 0 8192
+//@   allocbound 1 8192
+//@   allocbound 2 1048576
+//@   fresh ret0
+//@   modifies nothing
+//@   loop 0 sig "for _, sh := range sections" invariant -1 <= rangeindex && rangeindex < len(sections) && 2 <= pages && pages <= 2 + (rangeindex + 1) * 1048577
+//@
 //@ func readAndHash
 //@   property C11 C08
 //@   nopanic
@@ -129,6 +166,10 @@ package authenticode
 //@   on call invoke io.Writer.Write(_, _) ret (n, e): writes = writes + 1
 //@   ensures @all_three_pieces_hashed ret1 == nil ==> writes == 3 && ret0 != nil
 //@   ensures @alignment_usable_as_a_divisor ret1 == nil ==> ret0.fileAlign != 0
+//@   ensures @header_values_in_range ret1 == nil ==> (ret0.pageSize == 4096 || ret0.pageSize == 8192) && 0 <= ret0.sizeOfHdr && ret0.sizeOfHdr <= 4294967295 && \
+//@        0 <= ret0.secTblStart && ret0.secTblStart <= 8589934592 && ret0.peStart == peStart
+//@   fresh ret0
+//@   modifies sink r, sink d
 //@   ensures @certificate_entry_position ret1 == nil ==> (ret0.posDDCert == peStart + 24 + 128 || ret0.posDDCert == peStart + 24 + 144) && \
 //@        0 <= ret0.certStart && ret0.certStart <= 4294967295 && 0 <= ret0.certSize && ret0.certSize <= 4294967295
 //@   allocbound 0 65535
@@ -136,7 +177,7 @@ package authenticode
 //@ func readTrailer
 //@   property C08 C05 C11
 //@   nopanic
-//@   requires r != nil && d != nil && 0 <= lastSection && lastSection <= 1099511627776 && 0 <= certStart && certStart <= 4294967295 && 0 <= certSize && certSize <= 4294967295
+//@   requires r != nil && d != nil && 0 <= lastSection && lastSection <= 1125899906842624 && 0 <= certStart && certStart <= 4294967295 && 0 <= certSize && certSize <= 4294967295
 //@   ghost hashed int = 0
 //@   ghost copies int = 0
 //@   before call io.CopyN(w, src, n): assert @only_the_bytes_before_the_certificate_table_are_hashed \
@@ -144,10 +185,53 @@ package authenticode
 //@   on call io.CopyN(_, _, _) ret (n, e): copies = copies + 1
 //@   before call io.Copy(w, src): assert @unsigned_image_hashed_to_the_end_signed_image_must_end_with_its_table src == r && (certSize == 0 ==> w == d) && (certSize != 0 ==> w == ioutil.Discard && copies == 2)
 //@   ensures @signed_image_digest_stops_at_the_certificate_table ret1 == nil && certSize != 0 ==> ret0 == certStart && copies == 2
+//@   ensures @unsigned_image_ends_behind_its_sections ret1 == nil ==> (lastSection <= ret0 || certSize != 0) && 0 <= ret0 && ret0 <= 6917529027641081856
+//@   modifies sink r, sink d
 //@
 //@ func readSections
 //@   property C11
 //@   nopanic
 //@   requires r != nil && d != nil && fh != nil && hvals != nil && 0 <= hvals.secTblStart && hvals.secTblStart <= 8589934592 && 0 <= hvals.sizeOfHdr && hvals.sizeOfHdr <= 4294967295 && hvals.fileAlign != 0
 //@   allocbound 0 65535 * 40
-//@   loop 0 sig "for i, section := range sections" invariant -1 <= rangeindex && rangeindex < len(sections) && hvals.fileAlign != 0
+//@   ensures @section_count_is_a_16_bit_value ret1 == nil ==> len(ret0) <= 65535
+//@   ensures @header_size_only_shrinks 0 <= hvals.sizeOfHdr && hvals.sizeOfHdr <= old(hvals.sizeOfHdr)
+//@   modifies hvals.sizeOfHdr, sink r, sink d
+//@   loop 0 sig "for i, section := range sections" invariant -1 <= rangeindex && rangeindex < len(sections) && hvals.fileAlign != 0 && 0 <= hvals.sizeOfHdr && hvals.sizeOfHdr <= old(hvals.sizeOfHdr) && 0 <= secTblEnd
+//@
+//@ func (*PEDigest).MakePatch
+//@   property C08 C03
+//@   requires pd.markers != nil && 0 <= pd.OrigSize && pd.OrigSize <= pd.CertStart && pd.CertStart <= pd.OrigSize + 7 && pd.CertStart <= 1099511627776 && len(sig) <= 1073741824
+//@   requires 0 <= pd.markers.posDDCert && pd.markers.posDDCert <= 8589934592 && 0 <= pd.markers.certSize && pd.markers.certSize <= 4294967295
+//@   ghost adds int = 0
+//@   before call encoding/binary.Write(_, _, v): assert @certificate_table_header_counts_the_padded_signature istype(v, certInfo) ==> \
+//@        unbox(v, certInfo).Length == 8 + (len(sig) + 7) / 8 * 8 && unbox(v, certInfo).Revision == 512 && unbox(v, certInfo).CertificateType == 2
+//@   before call encoding/binary.Write(_, _, v): assert @directory_entry_points_at_the_new_table istype(v, pe.DataDirectory) ==> \
+//@        unbox(v, pe.DataDirectory).VirtualAddress == pd.CertStart && unbox(v, pe.DataDirectory).Size == 8 + (len(sig) + 7) / 8 * 8
+//@   before call (*binpatch.PatchSet).Add(_, off, sz, blob): assert @first_the_directory_entry_is_rewritten adds == 0 ==> off == pd.markers.posDDCert && sz == 8 && len(blob) == 8
+//@   before call (*binpatch.PatchSet).Add(_, off, sz, blob): assert @then_the_old_table_is_replaced_by_padding_and_the_new_one adds == 1 ==> \
+//@        off == pd.OrigSize && sz == pd.markers.certSize && len(blob) == (pd.CertStart - pd.OrigSize) + 8 + (len(sig) + 7) / 8 * 8
+//@   before call (*binpatch.PatchSet).Add(_, off, sz, blob): assert @two_regions adds <= 1
+//@   on call (*binpatch.PatchSet).Add(_, _, _, _) ret (): adds = adds + 1
+//@   ensures @both_regions_patched ret1 == nil ==> adds == 2 && ret0 != nil
+//@
+//@ func DigestPE
+//@   property C08 C05 C11
+//@   nopanic
+//@   requires r != nil && 1 <= hash && hash <= 19
+//@   ghost trailerEnd int = 0
+//@   ghost trailers int = 0
+//@   ghost padded int = 0
+//@   before call readTrailer(src, w, last, cs, sz): assert @trailer_digest_skips_the_table_named_by_the_header src == r && cs == hvals.certStart && sz == hvals.certSize && \
+//@        w == iface(digester.imageDigest) && trailers == 0
+//@   on call readTrailer(_, _, _, _, _) ret (n, e): trailerEnd = n; trailers = trailers + 1
+//@   before call (*imageHasher).section(_, src, _): assert @sections_read_from_the_image src == r && trailers == 0
+//@   before call invoke hash.Hash.Write(w, p): assert @only_alignment_padding_is_hashed_behind_the_trailer trailers == 1 && w == digester.imageDigest && padded == 0
+//@   on call invoke hash.Hash.Write(_, p) ret (n, e): padded = padded + len(p)
+//@   ensures @digest_present_on_success ret1 == nil ==> ret0 != nil
+//@   ensures @signature_goes_behind_the_padded_image ret1 == nil ==> ret0 != nil && trailers == 1 && ret0.OrigSize == trailerEnd && ret0.CertStart == ret0.OrigSize + padded && \
+//@        0 <= padded && padded < 8 && (trailerEnd >= 0 ==> ret0.CertStart % 8 == 0) && ret0.markers == hvals
+//@   loop 0 sig "for i, sh := range sections" invariant -1 <= rangeindex && rangeindex < len(sections) && trailers == 0 && padded == 0 && digester != nil && imageHasherOK(digester) && \
+//@        0 <= nextSection && nextSection <= 4294967295 + (rangeindex + 1) * 4294967295 && len(sections) <= 65535 && hvals != nil && \
+//@        0 <= hvals.certStart && hvals.certStart <= 4294967295 && 0 <= hvals.certSize && hvals.certSize <= 4294967295
+//@   allocbound 0 4096
+//@   allocbound 1 8
